@@ -1,5 +1,5 @@
 (* Props/C14.v — property C14: built-in reports state exactly the facts of the event stream (structure). *)
-From CV Require Import Model.Base Model.Events Model.Stats Model.Reporters Model.ReportersSpec Proofs.BaseP.
+From CV Require Import Model.Base Model.Events Model.Stats Model.Reporters Model.ReportersSpec Proofs.BaseP Proofs.ReportersP.
 From Coq Require Import Lia.
 
 (* terminal output: at most one line per event; exactly one for a step result, a failed hook, a parser error *)
@@ -63,3 +63,24 @@ Theorem C14_junit_classification :
     | _ => 0
     end.
 Proof. reflexivity. Qed.
+
+(* LIBTEST, WHOLE DOCUMENT: for EVERY event list (contract-abiding or not, with or without the pre-ParsingFinished
+   buffering) every suite-result line of the report states totals that agree with the individual entries written
+   before it: passed = number of `ok` lines, ignored = number of `ignored` lines, failed <= number of `failed` lines
+   (the difference being the step failures that are retried), and the verdict is `ok` iff failed = 0 *)
+Theorem C14_libtest_totals_agree_with_entries :
+  forall has_path es pre ok p f i post,
+    libtest_lines has_path es = pre ++ RSuiteResult ok p f i :: post ->
+    p = kcount 1 pre /\ i = kcount 3 pre /\ f <= kcount 2 pre /\ ok = (f =? 0).
+Proof. intros has_path es. exact (libtest_totals_agree has_path es). Qed.
+Print Assumptions C14_libtest_totals_agree_with_entries.
+
+Example C14_libtest_totals_nonvacuous :
+  libtest_lines (fun _ => true)
+    [EvParsingFinished 1 0 1 2 0; EvStarted; EvFeatS 1; EvScen 1 None 2 None ScStarted;
+     EvScen 1 None 2 None (ScStep 3 StStarted); EvScen 1 None 2 None (ScStep 3 StPassed);
+     EvScen 1 None 2 None (ScStep 4 StStarted); EvScen 1 None 2 None (ScStep 4 (StFailed (EPanic 1)));
+     EvScen 1 None 2 None ScFinished; EvFeatF 1; EvFinished]
+  = [RSuiteStarted 2; RTest 0 [1; 0; 0; 0; 2; 0; 0; 0; 0; 3]; RTest 1 [1; 0; 0; 0; 2; 0; 0; 0; 0; 3];
+     RTest 0 [1; 0; 0; 0; 2; 0; 0; 0; 0; 4]; RTest 2 [1; 0; 0; 0; 2; 0; 0; 0; 0; 4]; RSuiteResult false 1 1 0].
+Proof. vm_compute. reflexivity. Qed.
